@@ -17,6 +17,7 @@ import (
 	"runtime"
 	"strings"
 	"sync"
+	"sync/atomic"
 	"time"
 
 	"github.com/deadsy/sdfx/render"
@@ -363,6 +364,35 @@ func (s *slowSDF3) Evaluate(p v3.Vec) float64 {
 }
 func (s *slowSDF3) BoundingBox() sdf.Box3 { return s.s.BoundingBox() }
 
+// nanSDF3 returns NaN at a deterministic scatter of points (a field with holes, e.g. a division by zero on a
+// symmetry plane): what the renderer makes of a NaN is its business, but it has to be the same every time.
+type nanSDF3 struct{ s sdf.SDF3 }
+
+func (s nanSDF3) Evaluate(p v3.Vec) float64 {
+	h := math.Float64bits(p.X)*31 ^ math.Float64bits(p.Y)*131 ^ math.Float64bits(p.Z)*1031
+	if (h>>17)%11 == 0 {
+		return math.NaN()
+	}
+	return s.s.Evaluate(p)
+}
+func (s nanSDF3) BoundingBox() sdf.Box3 { return s.s.BoundingBox() }
+
+// pauseSDF3 sleeps once, for a long time, at its n-th evaluation (a render that takes seconds).
+type pauseSDF3 struct {
+	s  sdf.SDF3
+	n  int64
+	d  time.Duration
+	at int64
+}
+
+func (s *pauseSDF3) Evaluate(p v3.Vec) float64 {
+	if atomic.AddInt64(&s.at, 1) == s.n {
+		time.Sleep(s.d)
+	}
+	return s.s.Evaluate(p)
+}
+func (s *pauseSDF3) BoundingBox() sdf.Box3 { return s.s.BoundingBox() }
+
 func fileDigest(path string) int {
 	b, err := os.ReadFile(path)
 	if err != nil {
@@ -382,6 +412,8 @@ func digestInts(xs []int) int {
 	s := h.Sum(nil)
 	return int(binary.LittleEndian.Uint32(s[:4]) & 0x7fffffff)
 }
+
+var refDigest [2]int
 
 func c09Record(args []string) error {
 	dir, err := os.MkdirTemp("", "vh-c09-")
@@ -460,6 +492,32 @@ func c09Record(args []string) error {
 				}
 			}
 			runtime.GOMAXPROCS(ncpu)
+		}
+		// a field with NaN holes, rendered by the uniform renderer under every GOMAXPROCS value and after different
+		// earlier renders (whatever a worker keeps from its previous batch must not leak into this one)
+		{
+			holes := nanSDF3{sp}
+			for _, gp := range procs {
+				runtime.GOMAXPROCS(gp)
+				for k := 0; k < 3; k++ {
+					if k == 1 {
+						render.ToTriangles(bx, render.NewMarchingCubesUniform(9)) // a different render in between
+					}
+					ts := render.ToTriangles(holes, render.NewMarchingCubesUniform(31))
+					emit(detObs{"det", "sphere-with-nan-holes/uniform/31/mem", fmt.Sprintf("gomaxprocs=%d k=%d rep=%d", gp, k, rep), digestTris(ts), len(ts)})
+				}
+			}
+			runtime.GOMAXPROCS(ncpu)
+		}
+		// a render that takes seconds (one evaluation sleeps 2.5 s in the middle): the files must be the files of
+		// the fast render
+		{
+			p := filepath.Join(dir, "slow.stl")
+			render.ToSTL(sp, p, render.NewMarchingCubesUniform(29))
+			emit(detObs{"det", "sphere/uniform/29/stl", fmt.Sprintf("fast rep=%d", rep), fileDigest(p), 0})
+			os.Remove(p)
+			render.ToSTL(&pauseSDF3{s: sp, n: 9000, d: 2500 * time.Millisecond}, p, render.NewMarchingCubesUniform(29))
+			emit(detObs{"det", "sphere/uniform/29/stl", fmt.Sprintf("one evaluation sleeps 2.5 s rep=%d", rep), fileDigest(p), 0})
 		}
 		// a quadtree deep enough (> 2^9 cells) for any "large squares in parallel" strategy to engage
 		{
@@ -593,6 +651,35 @@ func c09Concurrent(args []string) error {
 					emit(detObs{"det", fmt.Sprintf("%s/uniform/%d/mem", models[i%2].name, cellsOf(i)), fmt.Sprintf("concurrent-big round=%d rep=%d", round, rep), digestTris(big[i]), len(big[i])})
 				}
 			}
+		}
+		// the same small octree render many times over (a hand-off that fails a few times in a thousand)
+		{
+			for _, gp := range []int{4, runtime.NumCPU()} {
+				runtime.GOMAXPROCS(gp)
+				first, bad, n := 0, 0, 1200
+				for k := 0; k < n; k++ {
+					ts := render.ToTriangles(models[0].s, render.NewMarchingCubesOctree(20+10*(k%2)))
+					d := digestTris(ts) ^ (k % 2)
+					if k < 2 {
+						emit(detObs{"det", fmt.Sprintf("sphere/octree/%d/mem", 20+10*(k%2)), fmt.Sprintf("repeat k=%d gomaxprocs=%d rep=%d", k, gp, rep), digestTris(ts), len(ts)})
+					}
+					_ = first
+					_ = d
+					if k >= 2 {
+						// compare with the first render of the same resolution; report only differing ones
+						ref := refDigest[k%2]
+						if digestTris(ts) != ref {
+							bad++
+							if bad <= 3 {
+								emit(detObs{"det", fmt.Sprintf("sphere/octree/%d/mem", 20+10*(k%2)), fmt.Sprintf("repeat k=%d gomaxprocs=%d rep=%d", k, gp, rep), digestTris(ts), len(ts)})
+							}
+						}
+					} else {
+						refDigest[k%2] = digestTris(ts)
+					}
+				}
+			}
+			runtime.GOMAXPROCS(runtime.NumCPU())
 		}
 		// files written at the same time: two STL streams and a 3MF of different models, against the files of the
 		// same renders done one after the other
